@@ -110,12 +110,26 @@ def write_nifti_image(data: Tensor, grid: Grid, path: PathUri) -> None:
         data = data.unsqueeze(0)
     if data.ndim != grid.ndim + 1:
         raise ValueError("write_image() data.ndim must be equal to grid.ndim or grid.ndim + 1")
+    if not 2 <= grid.ndim <= 3:
+        raise ValueError("write_image() NIfTI image must have two or three spatial dimensions")
     # Reverse order of axes
     dataobj = np.transpose(data.numpy(), axes=tuple(reversed(range(data.ndim))))
-    # Convert to NIfTI RAS convention
-    affine = grid.affine().cpu().numpy()
+    # Scalar image has no channel dimension, vector image stores channels in fifth dimension (cf. ITK)
+    nchannels = dataobj.shape[-1]
+    if nchannels == 1:
+        dataobj = dataobj[..., 0]
+    else:
+        dataobj = dataobj.reshape(dataobj.shape[:-1] + (1,) * (4 - grid.ndim) + (nchannels,))
+    # Homogeneous 4x4 image to world matrix in NIfTI RAS convention
+    D = grid.ndim
+    affine = np.eye(4, dtype=float)
+    affine[:D, :D] = grid.affine().cpu().numpy()
+    affine[:D, 3] = grid.origin().cpu().numpy()
     affine[:2] *= -1
+    image = nib.Nifti1Image(dataobj, affine)
+    if nchannels > 1:
+        image.header.set_intent("vector")
     with StorageObject.from_path(path) as obj:
         local_path = unlink_or_mkdir(obj.path)
-        nib.save(nib.Nifti1Image(dataobj, affine), str(local_path))
+        nib.save(image, str(local_path))
         obj.push(force=True)
